@@ -130,11 +130,15 @@ PROPS = {
                 "casings, long/UTF-8/tab/padded values; accepted through the real ingress handler or Admin publish (payload_b64), stored on memory or "
                 "SQLite, delivered through pull HTTP (base64), Worker gRPC methods or the real PushDispatcher+HTTPDeliverer into a recording "
                 "RoundTripper, with 0-3 redeliveries (nack / 503) in between; round-trip oracle on payload bytes and an independent header expectation; "
-                "non-trivial = (body has a byte >=0x80 or 0x00, or size within 1 of max_body, or a repeated/sensitive header) and >=1 redelivery",
+                "non-trivial = (body has a byte >=0x80 or 0x00, or size within 1 of max_body, or a repeated/sensitive header) and >=1 redelivery | store batch tier: 2-6 messages "
+                "with a header / trace / payload variant each (none, empty map, plain, values a serialiser must escape), single or batch enqueue, one dequeue with batch "
+                "below / at / above the ready count on memory and SQLite, optionally nack-all and a second dequeue; every returned item equals what was accepted; "
+                "non-trivial = a batch of >=2 in which a header-less message follows a header-bearing one",
         "assumptions": [SAMPLED, POSTGRES, "handlers are invoked in-process: the header map is what a net/http server would present for the generated field list; "
                         "restart fidelity is covered by C01; real gRPC wire encoding is not exercised"],
         "guards": ["mode-pull", "mode-worker", "mode-push", "via-ingress", "via-publish", "over-max-body", "redelivered"],
-        "parts": [{"engine": "front", "test": "TestProp_C07_Fidelity", "quick": 1200, "thorough": 60000, "shards": {"quick": 8}}],
+        "parts": [{"engine": "front", "test": "TestProp_C07_Fidelity", "quick": 1200, "thorough": 60000, "shards": {"quick": 8}},
+                  {"engine": "qmodel", "test": "TestProp_C07_StoreBatch", "quick": 1500, "thorough": 100000}],
     },
     "C12": {
         "rule": "ingress/publish tier: configs with max_depth 1-6, both drop policies, 1-3 routes with 0-3 deliver targets (fan-out), small max_body / "
